@@ -118,11 +118,27 @@ def accepts (alignment aw paging busword : Nat) (banks : List Bank) : Bool :=
   banks.all (fun b => decide (b.page < nLocs alignment aw paging) && decide (nsimple busword b.regs ≤ paging / 4))
     && pagesDistinct (banks.map (·.page))
 
-/-! ### CSR memory windows (`csr_bus.SRAM`, memory width ≤ bus word, no paging register) -/
+/-! ### CSR memory windows (`csr_bus.SRAM`, memory width ≤ bus word) -/
 
-/-- Memory word selected by CSR-bus address `adr` in a window at `page` of a memory of `depth` words:
-    `sel = adr[log2(paging/4):] == page`, `port.adr = adr[:len(port.adr)]`. -/
-def memSel (paging page depth adr : Nat) : Option Nat :=
-  if adr / (paging / 4) = page then some (adr % (paging / 4) % 2 ^ (Nat.log2 (depth - 1) + 1)) else none
+/-- `bits_for(n)`: width of `port.adr` is `bits_for(depth - 1)`. -/
+def bitsFor (n : Nat) : Nat := Nat.log2 n + 1
+
+/-- `log2_int(n, need_pow2=False)`: the least `l` with `n ≤ 2^l`. -/
+def clog2 (n : Nat) : Nat := if n ≤ 1 then 0 else Nat.log2 (n - 1) + 1
+
+/-- Number of pages the memory needs: `(depth + paging/4 - 1)//(paging/4)`. -/
+def sramPages (paging depth : Nat) : Nat := (depth + paging / 4 - 1) / (paging / 4)
+
+/-- Width of the `<mem>_page` register (`0`: no register). -/
+def sramPageBits (paging depth : Nat) : Nat := clog2 (sramPages paging depth)
+
+/-- Memory word selected by CSR-bus address `adr` in the window at `page`, with the page register holding `pv`:
+    `sel = adr[log2(paging/4):] == page`, `port.adr = Cat(adr[:len(port.adr) - page_bits], pv)`. -/
+def sramSel (paging page depth pv adr : Nat) : Option Nat :=
+  if adr / (paging / 4) = page then
+    let ab := bitsFor (depth - 1)
+    let pb := sramPageBits paging depth
+    some (adr % 2 ^ (ab - pb) + (pv % 2 ^ pb) * 2 ^ (ab - pb))
+  else none
 
 end Litex.Export
